@@ -138,6 +138,37 @@ func (c *chaosShim) serve(w http.ResponseWriter, r *http.Request) {
 			b = append([]byte("NOT-HTTP "), b...)
 			c.forward(w, r, bytes.NewReader(b))
 			hx.Emit("PostFault", "id", id)
+		case "post-cut":
+			// the upload reaches the proxy, but the connection dies in the middle of the posted response's
+			// header block (an agent that crashes or times out while uploading); the agent sees a reset
+			head := make([]byte, 24)
+			k, _ := io.ReadFull(r.Body, head)
+			if pc, err := net.DialTimeout("tcp", c.target, 3*time.Second); err == nil {
+				fmt.Fprintf(pc, "POST %s HTTP/1.1\r\nHost: %s\r\nTransfer-Encoding: chunked\r\n", r.URL.Path, c.target)
+				for _, hn := range []string{"X-Inverting-Proxy-Backend-ID", "X-Inverting-Proxy-Request-ID"} {
+					fmt.Fprintf(pc, "%s: %s\r\n", hn, r.Header.Get(hn))
+				}
+				fmt.Fprintf(pc, "\r\n%x\r\n%s\r\n", k, head[:k])
+				time.Sleep(5 * time.Millisecond)
+				pc.Close()
+			}
+			c.mu.Lock()
+			c.faulted[id]++
+			first := c.faulted[id] == 1
+			c.mu.Unlock()
+			if first {
+				hx.Emit("PostFault", "id", id)
+			}
+			if hj, ok := w.(http.Hijacker); ok {
+				if conn, _, err := hj.Hijack(); err == nil {
+					if tc, ok := conn.(*net.TCPConn); ok {
+						tc.SetLinger(0)
+					}
+					conn.Close()
+					return
+				}
+			}
+			http.Error(w, "chaos", 500)
 		case "post-reset":
 			buf := make([]byte, 10)
 			io.ReadFull(r.Body, buf)
@@ -230,7 +261,7 @@ func relayFaults(a *Args) {
 	res := a.Res
 	rng := hx.Rand("relay-faults")
 	kinds := []string{"be-close", "be-oddstatus", "be-garbage", "be-reset", "be-short", "fetch-500", "fetch-404", "fetch-garbled", "fetch-nonhttp", "fetch-reset",
-		"post-reject", "post-garble", "post-reset", "shim-input", "backend-down"}
+		"post-reject", "post-garble", "post-reset", "post-cut", "shim-input", "backend-down"}
 	positions := []int{2}
 	if hx.Thorough() {
 		positions = []int{0, 3, 7, 9}
